@@ -11,12 +11,29 @@ Contract of --replay (what audit/REPLAY.md validates for every property):
         -> `KNOWN-FINDING: property=Cnn <what>` and exit 0, as `./check Cnn` does;
   * FILE unreadable / not a replay file -> one-line error, exit 2 (never a verdict).
 """
-import json
+import json, os, re
 import vlib
 
 
-def load(pid, path):
-    """Read a replay file; an unreadable or malformed file is a usage error (exit 2), not a crash and not a verdict."""
+def no_recording(ctx):
+    """A replay never overwrites recorded replay files. Judges shared with run() call ctx.violation(), which would write
+    <tag>-1.json, <tag>-2.json ... again (a fresh process numbers from 1), i.e. on top of the very files being replayed:
+    while replaying, such records go to a scratch directory under the C cache instead."""
+    d = os.path.join(vlib.CACHE, "replays", "_during-replay", ctx.pid)
+
+    def replay_path(tag):
+        os.makedirs(d, exist_ok=True)
+        ctx.replay_n += 1
+        return os.path.join(d, "%s-seed%d-%s-%d.json" % (ctx.pid, ctx.seed, re.sub(r"[^\w.-]", "_", tag)[:60], ctx.replay_n))
+    ctx.replay_path = replay_path
+    return ctx
+
+
+def load(ctx, path):
+    """Read a replay file; an unreadable or malformed file is a usage error (exit 2), not a crash and not a verdict.
+    Also switches `ctx` to scratch recording (see no_recording)."""
+    pid = ctx.pid
+    no_recording(ctx)
     try:
         with open(path) as f:
             r = json.load(f)
@@ -39,7 +56,7 @@ def obligations(pid, run, r, path):
     for n in names:
         print("  - " + n[:300])
     print("[%s] nothing to re-run directly: running the check again on %s (seed %s, tier %s)" % (pid, vlib.REPO, seed, tier), flush=True)
-    c2 = vlib.Check(pid, tier, seed)
+    c2 = no_recording(vlib.Check(pid, tier, seed))
     run(c2)
     for b in c2.broken:
         print("  still does not check: " + str(b.get("name"))[:300])
